@@ -5,7 +5,7 @@ import ast
 
 from .. import refsem, valsweep
 from ..report import Ctx
-from ..srcmodel import norm
+from ..srcmodel import ClassDef, dotted, norm
 
 EXPLANATION = (
     "Interprocedural parameter-flow rule: on every call edge between two functions of the validation module that both "
@@ -25,7 +25,39 @@ def check(ctx: Ctx) -> None:
     mod = model.module(VAL)
     entry = model.func(f"{VAL}.validate_deep_anwendungshandbuch")
     ctx.require(FLAG in entry.params, f"validate_deep_anwendungshandbuch has no parameter {FLAG}")
-    holders = [f for f in model.functions.values() if f.module is mod and FLAG in f.params]
+    def flag_attrs(cls) -> set:
+        """attributes of `cls` that its __init__ fills with the flag parameter (an object that carries the flag)"""
+        out = set()
+        if cls is None:
+            return out
+        for cn in model.mro(cls.qualname):
+            c = model.classes.get(cn)
+            init = c.methods.get("__init__") if c is not None else None
+            if init is None or FLAG not in init.params:
+                continue
+            for n in ast.walk(init.node):
+                if isinstance(n, (ast.Assign, ast.AnnAssign)) and isinstance(n.value, ast.Name) and n.value.id == FLAG:
+                    for t in (n.targets if isinstance(n, ast.Assign) else [n.target]):
+                        if isinstance(t, ast.Attribute) and isinstance(t.value, ast.Name) and t.value.id == "self":
+                            out.add(t.attr)
+        return out
+
+    def carries_flag(f) -> bool:
+        return FLAG in f.params or bool(flag_attrs(f.cls))
+
+    def is_flag_expr(f, arg) -> bool:
+        if isinstance(arg, ast.Name) and arg.id == FLAG and FLAG in f.params:
+            return True
+        if isinstance(arg, ast.Attribute) and isinstance(arg.value, ast.Name) and arg.value.id == "self" and arg.attr in flag_attrs(f.cls):
+            return True
+        if isinstance(arg, ast.Attribute) and isinstance(arg.value, ast.Name) and arg.value.id == "self" and f.cls is not None:
+            prop = model.find_method(f.cls, arg.attr)  # a property that returns the stored flag
+            if prop is not None and any((dotted(d) or "") == "property" for d in prop.node.decorator_list):
+                rets = [n.value for n in ast.walk(prop.node) if isinstance(n, ast.Return)]
+                return len(rets) == 1 and is_flag_expr(prop, rets[0])
+        return False
+
+    holders = [f for f in model.functions.values() if f.module is mod and carries_flag(f)]
     sink = model.func(f"{VAL}.map_requirement_validation_values")
     ctx.require(FLAG in sink.params, f"map_requirement_validation_values has no parameter {FLAG}")
     edges = 0
@@ -43,11 +75,14 @@ def check(ctx: Ctx) -> None:
                     if kw.arg == FLAG:
                         arg = kw.value
                 idx = callee.params.index(FLAG) + site.arg_offset
+                bound = callee.cls is not None and callee.params[:1] in (["self"], ["cls"]) and not any((dotted(d) or "") == "staticmethod" for d in callee.node.decorator_list)
+                if bound and not (isinstance(site.node.func, ast.Attribute) and isinstance(model.resolve_expr(caller.module, site.node.func.value), ClassDef)):
+                    idx -= 1  # constructor call or call on an instance: the first parameter is bound implicitly
                 if site.how == "ref":
                     arg = None  # the function object is handed on (e.g. to map): only what the consumer passes positionally arrives
-                elif arg is None and idx < len(site.node.args) and not any(isinstance(a, ast.Starred) for a in site.node.args):
+                elif arg is None and 0 <= idx < len(site.node.args) and not any(isinstance(a, ast.Starred) for a in site.node.args):
                     arg = site.node.args[idx]
-                ok = isinstance(arg, ast.Name) and arg.id == FLAG
+                ok = arg is not None and is_flag_expr(caller, arg)
                 what = (f"call edge {caller.name} -> {callee.name}: the callee's parameter '{FLAG}' " +
                         ("receives no argument (its default applies)" if arg is None else f"receives '{norm(arg)}' instead of the caller's flag"))
                 ctx.ob("C14.thread", f"{caller.qualname}->{callee.qualname}", ok, what, file=FILE, line=site.line, function=caller.qualname)
@@ -59,11 +94,12 @@ def check(ctx: Ctx) -> None:
     ctx.require(edges >= 5, f"only {edges} flag-carrying call edges found")
     ctx.units["flag_edges"] = edges
     # functions on the path that call a flag holder but do not hold the flag themselves
+    reach_entry = model.reachable(entry)
     for fn in model.functions.values():
-        if fn.module is mod and FLAG not in fn.params:
+        if fn.module is mod and not carries_flag(fn):
             for site in model.callsites(fn):
                 for callee in site.targets:
-                    if FLAG in callee.params and callee.module is mod and entry.qualname in {q for q in [entry.qualname]} and fn.qualname in model.reachable(entry):
+                    if FLAG in callee.params and callee.module is mod and fn.qualname in reach_entry and site.how != "ref":
                         ctx.ob("C14.thread", f"{fn.qualname}->{callee.qualname}", False,
                                f"{fn.name} is reachable from validate_deep_anwendungshandbuch and calls {callee.name} but has no '{FLAG}' to pass on",
                                file=FILE, line=site.line, function=fn.qualname)
